@@ -390,7 +390,9 @@ fn c10_part_eviction_forgets_the_dropped_change() {
         record_seen(&mut seen, &other);
     }
     let ch = mk(&incoming);
-    let (new_cost, _) = evict_oldest_when_full(&ch, &mut queue, &mut seen, 1, cost, 0);
+    let w = any_world(false);
+    let (new_cost, _) = evict_oldest_when_full(&ch, ChangeSource::Sync, &w.agent, &w.bookie, &mut queue, &mut seen, 1, cost, 0);
+    core::mem::forget(w);
     assert!(queue.len() == 0, "C10: full queue did not drop its oldest entry");
     assert!(new_cost == 0, "C10: queued-cost counter out of step with the queue");
     let ps: u64 = kani::any();
@@ -421,7 +423,9 @@ fn c10_part_no_eviction_with_room() {
     queue.push_back((dc, ChangeSource::Sync, Instant));
     record_seen(&mut seen, &d);
     let ch = mk(&incoming);
-    let (new_cost, _) = evict_oldest_when_full(&ch, &mut queue, &mut seen, 2, cost, 0);
+    let w = any_world(false);
+    let (new_cost, _) = evict_oldest_when_full(&ch, ChangeSource::Sync, &w.agent, &w.bookie, &mut queue, &mut seen, 2, cost, 0);
+    core::mem::forget(w);
     assert!(queue.len() == 1 && new_cost == cost, "C10: an entry was dropped although the queue had room");
     assert!(model_covers(&seen, &d), "C10: cache forgot a queued change");
     kani::cover!(true, "ran");
@@ -442,7 +446,11 @@ fn c10_part_suppressed_iff_cache_covers_all_of_it() {
     }
     let offered = any_cs(false);
     let ch = mk(&offered);
-    let got = suppressed_by_seen_cache(&ch, &seen);
+    let w = any_world(false);
+    let mut queue: VecDeque<(ChangeV1, ChangeSource, Instant)> = VecDeque::new();
+    let got = suppressed_by_seen_cache(&ch, ChangeSource::Sync, &w.agent, &w.bookie, &mut queue, &mut seen, 2, 0, 0);
+    assert!(queue.len() == 0);
+    core::mem::forget((w, queue));
     assert!(
         got == model_covers(&seen, &offered),
         "C10: an offered changeset was dropped although the node neither holds it nor has all of it on the way (or a duplicate was queued)"
@@ -463,7 +471,11 @@ fn c10_part_record_covers_the_offer_and_keeps_the_rest() {
     }
     let offered = any_cs(false);
     let ch = mk(&offered);
-    record_in_seen_cache(&ch, &mut seen);
+    let w = any_world(false);
+    let mut queue: VecDeque<(ChangeV1, ChangeSource, Instant)> = VecDeque::new();
+    record_in_seen_cache(&ch, ChangeSource::Sync, &w.agent, &w.bookie, &mut queue, &mut seen, 2, 0, 0);
+    assert!(queue.len() == 0);
+    core::mem::forget((w, queue));
     assert!(model_covers(&seen, &offered), "C10: accepted changeset not recorded in the seen cache");
     if has_a {
         assert!(model_covers(&seen, &a), "C10: recording an offer made the cache forget another change");
